@@ -69,6 +69,12 @@ func VC06INT(im, n int) {
 		want.PC = specRead16(sb, specW(s.IR.Hi, d0[0]&0xfe))
 	}
 	vAcceptCommon(cpu, halt, cnt, bus, sb, want)
+	// the request object belongs to the device that raised it (and may raise it
+	// again): accepting it does not rewrite the bytes it supplied
+	vAssert("request-data-intact", len(it.Data) == n)
+	for i := 0; i < n && i < len(it.Data); i++ {
+		vAssert("request-data-intact", it.Data[i] == d0[i])
+	}
 }
 
 // Mode 0 with RST p supplied.  Which return address is pushed is C07's
@@ -90,6 +96,7 @@ func VC06IM0RST(p int) {
 	want.SP = s.SP - 2
 	want.PC = uint16(p * 8)
 	vIM0Common(cpu, halt, cnt, bus, ref, s, want)
+	vAssert("request-data-intact", vAnd(len(it.Data) == 1, it.Data[0] == uint8(0xc7|p<<3)))
 }
 
 // Mode 0 with CALL nn supplied.  region: 0 = PC <= 0xFFFD, 1 = PC = 0xFFFE, 2 = PC = 0xFFFF
